@@ -98,7 +98,55 @@ def roundtrip(run, n, label, tags=()):
     return fails
 
 
+def leaf_into_user_library(ad, r):
+    """one leaf cell that is used from another library moves into the library of one of its users (a cell and the black boxes it
+    instantiates in one library, in whatever order they were created) -- None when the design offers no such move"""
+    a = copy.deepcopy(ad)
+    where = {(L['name'], d['name']): (L, d) for L in a['libraries'] for d in L['definitions']}
+    is_leaf = lambda d: not d['instances'] and not d.get('nets')
+    users = [(L, i) for L in a['libraries'] for d in L['definitions'] for i in d['instances']
+             if tuple(i['ref']) in where and is_leaf(where[tuple(i['ref'])][1]) and i['ref'][0] != L['name'] and list(i['ref']) != list(a['top'])]
+    if not users:
+        return None
+    target, inst = r.choice(users)
+    src, leaf = where[tuple(inst['ref'])]
+    if any(d['name'].lower() == leaf['name'].lower() for d in target['definitions']):
+        return None
+    old = [src['name'], leaf['name']]
+    src['definitions'].remove(leaf)
+    target['definitions'].append(leaf)
+    for L in a['libraries']:
+        for d in L['definitions']:
+            for i in d['instances']:
+                if list(i['ref']) == old:
+                    i['ref'] = [target['name'], leaf['name']]
+    # EDIF can only express libraries whose cross references are acyclic (a library is one contiguous block, cells are defined before
+    # use): the move must not create a cycle between libraries
+    edges = {}
+    for L in a['libraries']:
+        for d in L['definitions']:
+            for i in d['instances']:
+                if i['ref'][0] != L['name']:
+                    edges.setdefault(L['name'], set()).add(i['ref'][0])
+    seen, stack = set(), set()
+    def cyclic(u):
+        if u in stack: return True
+        if u in seen: return False
+        seen.add(u); stack.add(u)
+        bad = any(cyclic(v) for v in edges.get(u, ()))
+        stack.discard(u)
+        return bad
+    if any(cyclic(L['name']) for L in a['libraries']):
+        return None
+    return a
+
+
 def case_api(run, ad, order_seed):
+    r0 = random.Random('leafmove:%s' % order_seed)
+    if r0.random() < 0.35:
+        moved = leaf_into_user_library(ad, r0)
+        if moved is not None and not designs_errors(moved):
+            ad = moved
     a2 = copy.deepcopy(ad)
     r = random.Random('order:%s' % order_seed)
     r.shuffle(a2['libraries'])
@@ -128,6 +176,14 @@ def case_file(run, z):
     if f:
         return [f]
     return roundtrip(run, n, 'file')
+
+
+def designs_errors(ad):
+    try:
+        import designs
+        return designs.validate_ad(ad)
+    except Exception as e:
+        return [repr(e)]
 
 
 def nontrivial(ad):
